@@ -22,8 +22,13 @@ def run_one(pid, tier, repo_root, seed):
     try:
         repo = Repo(repo_root)
         chk = Check(pid, tier, repo_root, level=getattr(mod, "LEVEL", "other"), seed=seed)
-        mod.run(chk, repo)
-        if tier == "thorough" and not os.environ.get("VERIF_NO_SELFTEST") and not chk.violations:
+        try:
+            mod.run(chk, repo)
+        except AnalysisError as e:
+            if not chk.violations:
+                raise
+            chk.analysis_errors.append(str(e))
+        if tier == "thorough" and not os.environ.get("VERIF_NO_SELFTEST") and not chk.violations and not chk.analysis_errors:
             # only meaningful on a tree that holds: on a violating tree the verdict is the violation
             selftest(chk, pid)
         return chk.finish()
